@@ -473,6 +473,12 @@ def body_displaced(case, ctx):
     tol = ATOL * _sumabs(gauss)
     ctx.info["ratio"] = float(np.max(np.abs(got - ref)) / tol)
     ctx.close(got, ref, tol, "bvp-potential-anisotropic", what)
+    # the returned potential is a function of the points: asked again for the very same points it gives the very same
+    # numbers, and the array it handed out the first time has not changed meanwhile
+    first = np.array(got, dtype=float)
+    again = np.asarray(v(pts), dtype=float)
+    ctx.check(np.array_equal(again, first), "potential-evaluation-depends-on-history", f"{what}: second evaluation at the same points differs by up to {float(np.max(np.abs(again - first))):.3e}")
+    ctx.check(np.array_equal(np.asarray(got, dtype=float), first), "potential-evaluation-depends-on-history", f"{what}: the array returned by the first evaluation changed after the second evaluation")
 
 
 def body_robust(case, ctx):
